@@ -70,6 +70,8 @@ func checkC20(c *Ctx) {
 	c.providerWiring(false, true)
 	// messages delivered just before the server closes the connection are still read from the ring
 	c.drainBeforeEOF()
+	// the refusal code Connect reports is the one the server sent: the CONNACK decoder lets the six defined codes through
+	c.codecLengthTables()
 }
 
 func (c *Ctx) clientConnect(fn *ssa.Function) {
